@@ -247,6 +247,16 @@ pub fn path_outcomes(abs: bool, segs: &Segs, op: &MPathOp) -> Vec<Segs> {
 						let mut t = s.clone();
 						m_pop(abs, &mut t);
 						add(&mut next, (t, 2));
+						// left open by the statement: on a list that ends in an empty segment
+						// ("a/b/") the directory meaning of ".." per RFC 3986 5.2.4 removes the
+						// empty segment together with its predecessor ("a/"), while popping the
+						// last segment only gives "a/b/" again
+						if s.len() >= 2 && s.last().map(|l| l.is_empty()).unwrap_or(false) && s[s.len() - 2] != b".." {
+							let mut t2 = s.clone();
+							t2.pop();
+							t2.pop();
+							add(&mut next, (t2, 2));
+						}
 					}
 					seg => {
 						// left open by the statement: an empty segment symbolically
